@@ -1,6 +1,7 @@
 // tree_props.hpp - C02 C03 C04 C08 C12 over tape-decoded API programs and snapshots
 #pragma once
 #include "prog.hpp"
+#include <sys/wait.h>
 
 namespace tp {
 
@@ -203,6 +204,136 @@ static void c12hist(Tape &t, Ctx &ctx) {
     p.finish();
     ctx.nontrivial = sessions >= 2 && creates >= 3;
     ctx.count("sessions", sessions);
+}
+
+// =======================================================================================
+// C12 (schedules) - ids of processes with generated start seconds never collide.
+// The harness executable defines time() (see h_tree.cpp): g_fake_time >= 0 or the environment
+// variable VERIF_FAKE_TIME make it return that second. Only time() is faked.
+// =======================================================================================
+extern "C" long g_fake_time;
+
+// what one process does: create a file with k entities and draw k more ids; returns all ids
+static std::vector<std::string> idWorker(const std::string &path, size_t k) {
+    std::vector<std::string> ids;
+    nix::File f = nix::File::open(path, nix::FileMode::Overwrite);
+    ids.push_back(f.id());
+    nix::Block b = f.createBlock("b", "t");
+    ids.push_back(b.id());
+    nix::Section s = f.createSection("s", "t");
+    ids.push_back(s.id());
+    for (size_t i = 0; i < k; i++) {
+        std::string n = "e" + std::to_string(i);
+        switch (i % 5) {
+        case 0: ids.push_back(b.createDataArray(n, "t", nix::DataType::Double, nix::NDSize({1})).id()); break;
+        case 1: ids.push_back(b.createTag(n, "t", {0.0}).id()); break;
+        case 2: ids.push_back(s.createProperty(n, nix::DataType::Double).id()); break;
+        case 3: ids.push_back(b.createSource(n, "t").id()); break;
+        default: ids.push_back(s.createSection(n, "t").id()); break;
+        }
+    }
+    for (size_t i = 0; i < k; i++) ids.push_back(nix::util::createId());
+    f.close();
+    return ids;
+}
+
+static std::vector<std::string> splitLines(const std::string &s) {
+    std::vector<std::string> v;
+    std::istringstream is(s);
+    std::string l;
+    while (std::getline(is, l)) if (!l.empty()) v.push_back(l);
+    return v;
+}
+
+static void c12sched(Tape &t, Ctx &ctx) {
+    size_t P = 2 + t.below(7);
+    bool viaFork = t.flip();
+    size_t k = 1 + t.below(6);
+    long base = 1700000000 + static_cast<long>(t.below(1000000));
+    std::vector<long> start(P);
+    std::set<long> distinctStarts;
+    for (size_t i = 0; i < P; i++) {
+        switch (t.pick({5, 2, 1, 1})) {
+        case 0: start[i] = base; break;
+        case 1: start[i] = base + 1; break;
+        case 2: start[i] = base - 1; break;
+        default: start[i] = base + 2 + static_cast<long>(t.below(100000)); break;
+        }
+        distinctStarts.insert(start[i]);
+    }
+    bool realClock = t.chance(15); // no fake clock at all: processes launched back to back
+    bool parentDrewIds = true;      // this process has created files / ids long before (template files, earlier cases)
+    ctx.trace << "C12 schedule: " << P << " processes via " << (viaFork ? "fork" : "exec") << ", " << k << " entities each, start seconds";
+    for (size_t i = 0; i < P; i++) ctx.trace << " " << (realClock ? 0 : start[i] - base);
+    if (realClock) ctx.trace << " (real clock)";
+    if (viaFork) { std::string warm = nix::util::createId(); (void)warm; }
+    std::vector<std::vector<std::string>> all(P);
+    if (viaFork) {
+        std::vector<pid_t> pids(P);
+        for (size_t i = 0; i < P; i++) {
+            std::string out = ctx.path("ids_" + std::to_string(i) + ".txt");
+            unlink(out.c_str());
+            fflush(nullptr);
+            pid_t pid = fork();
+            if (pid == 0) {
+                int rc = 0;
+                try {
+                    if (!realClock) g_fake_time = start[i];
+                    std::vector<std::string> ids = idWorker(ctx.path("sched_" + std::to_string(i) + ".nix"), k);
+                    std::ofstream o(out);
+                    for (auto &x : ids) o << x << "\n";
+                } catch (...) { rc = 7; }
+                _exit(rc);
+            }
+            pids[i] = pid;
+        }
+        for (size_t i = 0; i < P; i++) {
+            int st = 0;
+            waitpid(pids[i], &st, 0);
+            VCHECK(WIFEXITED(st) && WEXITSTATUS(st) == 0, "forked id worker " << i << " failed (status " << st << ")");
+            all[i] = splitLines(slurp(ctx.path("ids_" + std::to_string(i) + ".txt")));
+        }
+    } else {
+        std::vector<FILE *> pipes(P);
+        for (size_t i = 0; i < P; i++) {
+            std::string cmd = "ASAN_OPTIONS=detect_leaks=0 ";
+            if (!realClock) cmd += "VERIF_FAKE_TIME=" + std::to_string(start[i]) + " ";
+            cmd += "'" + g_self + "' idworker '" + ctx.path("sched_" + std::to_string(i) + ".nix") + "' " + std::to_string(k) + " 2>/dev/null";
+            pipes[i] = popen(cmd.c_str(), "r");
+            VCHECK(pipes[i] != nullptr, "harness: popen failed");
+        }
+        for (size_t i = 0; i < P; i++) {
+            std::string out;
+            char buf[4096];
+            size_t n;
+            while ((n = fread(buf, 1, sizeof buf, pipes[i])) > 0) out.append(buf, n);
+            int rc = pclose(pipes[i]);
+            VCHECK(rc == 0, "id worker process " << i << " failed (status " << rc << ")");
+            all[i] = splitLines(out);
+        }
+    }
+    std::map<std::string, size_t> owner;
+    for (size_t i = 0; i < P; i++) {
+        VCHECK(all[i].size() == 3 + 2 * k, "harness: id worker " << i << " reported " << all[i].size() << " ids, expected " << 3 + 2 * k);
+        for (size_t j = 0; j < all[i].size(); j++) {
+            const std::string &id = all[i][j];
+            VCHECK(wellFormedUUID(id), "process " << i << ": id #" << j << " " << show(id) << " is not a well-formed UUID");
+            auto ins = owner.emplace(id, i);
+            VCHECK(ins.second, "the id " << id << " (id #" << j << " of process " << i << ", start second +" << (start[i] - base) << ") was also created by process "
+                                         << ins.first->second << " (start second +" << (start[ins.first->second] - base) << ")");
+        }
+    }
+    (void)parentDrewIds;
+    ctx.nontrivial = realClock || distinctStarts.size() < P || viaFork;
+    ctx.count(viaFork ? "schedule_fork" : "schedule_exec");
+    if (distinctStarts.size() < P) ctx.count("schedule_with_equal_start_second");
+    if (realClock) ctx.count("schedule_real_clock");
+    ctx.count("ids_compared", owner.size());
+}
+
+static void c12(Tape &t, Ctx &ctx) {
+    if (t.pick({1, 1}) == 0) { ctx.count("history_cases"); c12hist(t, ctx); }
+    else { ctx.count("schedule_cases"); c12sched(t, ctx); }
 }
 
 // =======================================================================================
